@@ -1,5 +1,5 @@
-(* Generic driver for the extracted models.
-   usage: driver <model>
+(* Generic driver for the extracted models (one binary per model, see build.sh).
+   usage: driver-<Cxx>
    stdin, one request per line:
      reset
      <op ints> ; <obs ints> | <obs ints> | ...        (implementation's observations)
